@@ -393,10 +393,19 @@ def rule_5(ctx):
     ctx.floor(8, 'wrapper contract obligations')
 
 
+def rule_6(ctx):
+    """An error operand can only become the result if the operand is evaluated and handed to the operator function:
+    operator nodes evaluate both operands on every evaluation (no value-dependent shortcut, no kept result)."""
+    from . import corelemma
+    corelemma.rule_operator_nodes(ctx)
+    ctx.floor(10, 'operator-node witnesses')
+
+
 RULES = [
     ('C07.1', 'registration discipline', rule_1),
     ('C07.2', 'no error value reaches a swallowing handler', rule_2),
     ('C07.3', 'operators cannot raise Python exceptions', rule_3),
     ('C07.4', 'error/type inspectors: decision tables over the class lattice', rule_4),
     ('C07.5', 'validate_args contract', rule_5),
+    ('C07.6', 'operator nodes evaluate every operand and apply the operator function to the values', rule_6),
 ]
